@@ -208,6 +208,77 @@ def oracle(sc, impl, aligned):
             a = sc['sym'].get(str(c[1]), 'err')
             if a != 'err':
                 registered.setdefault(a[1], current)
+    # ---- C08 (any scenario): every name in the IMPORTS of a module whose symbol pass succeeded is looked up, unless the
+    # module of that name is already there (parsed from another file) or the name has already failed
+    fetched = set(c[2] for c in impl['trace'] if c[0] == 'get')
+    for c in impl['trace']:
+        if c[0] == 'sym':
+            a = sc['sym'].get(str(c[1]), 'err')
+            if a != 'err':
+                for x in a[2]:
+                    if x not in fetched and x not in registered and st.get(x) not in ('failed', 'missing'):
+                        out['C08'].append(('imports-looked-up', 'module %d (tree %d) imports %d, which was never looked up' % (a[1], c[1], x)))
+    # ---- C10 (any scenario): under noDeps every module found in a file that was asked for explicitly - by whatever
+    # spelling: the requested name or the name the source knows the file by - is generated unless a searcher says it is
+    # up to date
+    if o.get('noDeps'):
+        cur, alias, last_tree, explicit = None, None, {}, set()
+        for c in impl['trace']:
+            if c[0] == 'get':
+                cur = c[2]
+                a = sc['sources'][c[1]].get(str(cur), 'nf')
+                alias = a[1] if isinstance(a, list) else None
+            elif c[0] == 'sym':
+                a = sc['sym'].get(str(c[1]), 'err')
+                if a != 'err':
+                    last_tree[a[1]] = c[1]
+                    if cur in sc['req'] or alias in sc['req']:
+                        explicit.add(a[1])
+        for m_ in sorted(explicit):
+            answers = [s_.get(str(m_), 'nf') for s_ in sc['searchers']]
+            if 'nm' not in answers and not any(c[1] == last_tree[m_] for c in f['gens']):
+                out['C10'].append(('nodeps-explicit', 'module %d was found in an explicitly requested file, no searcher says it is up to date, '
+                                   'yet under noDeps it was not generated (status %s)' % (m_, st.get(m_))))
+        # ---- C19 (any scenario): such a module stays eligible for borrowing when its code generation fails
+        if sc['borrowers']:
+            asked = set(c[2] for c in f['borrows'])
+            for m_ in sorted(explicit):
+                answers = [s_.get(str(m_), 'nf') for s_ in sc['searchers']]
+                if 'nm' not in answers and sc['gen'].get(str(last_tree[m_]), 'err') == 'err' and m_ not in asked:
+                    out['C19'].append(('eligible-explicit', 'module %d was found in an explicitly requested file and its code generation failed, '
+                                       'yet under noDeps no borrower was asked for it (status %s)' % (m_, st.get(m_))))
+    # ---- C09 (any scenario, no borrowers): replaying the recorded calls against the scenario tells which requests ended
+    # in a failure that nothing repaired (a later source, or another file supplying the module); with errors not ignored
+    # nothing may then be written
+    if not sc['borrowers']:
+        truth, cur, parsed_names = {}, None, set()
+        for c in impl['trace']:
+            if c[0] == 'get':
+                cur = c[2]
+                if sc['sources'][c[1]].get(str(cur), 'nf') == 'err':
+                    truth[cur] = 'failed'
+            elif c[0] == 'parse':
+                a = sc['parse'].get(str(c[1]), 'err')
+                if a == 'err' or not a[1]:
+                    truth[cur] = 'failed'
+            elif c[0] == 'sym':
+                a = sc['sym'].get(str(c[1]), 'err')
+                if a == 'err':
+                    truth[cur] = 'failed'
+                else:
+                    parsed_names.add(a[1])
+                    truth.pop(cur, None)
+                    truth.pop(a[1], None)
+        for n in set(c[2] for c in impl['trace'] if c[0] == 'get'):
+            if n not in truth and n not in parsed_names and all(s_.get(str(n), 'nf') == 'nf' for s_ in sc['sources']):
+                truth[n] = 'missing'
+        if truth and not o.get('ignoreErrors'):
+            if f['puts']:
+                out['C09'].append(('gate-trace', 'requests %r ended in failure (replayed from the recorded calls), errors not ignored, yet the writer was called: %r' % (
+                    sorted(truth), f['puts'])))
+            for n, s_ in st.items():
+                if s_ in ('compiled', 'borrowed'):
+                    out['C09'].append(('gate-trace', 'requests %r ended in failure, errors not ignored, yet %d is reported %s' % (sorted(truth), n, s_)))
     # ---- C09 (any scenario)
     pre_gate_fail = [n for n, s in st.items() if s == 'missing' or (s == 'failed' and f['err'].get(n) and f['err'][n][0] != 'put')]
     if pre_gate_fail and not o.get('ignoreErrors'):
@@ -343,8 +414,16 @@ def replay_scenario(pid, payload):
     if 'texts' in inp:
         # a finding stated on the real pipeline: module texts by file name, requested names, options
         from impl import pipeline
-        st, out, comp = pipeline.compile_set(inp['texts'], requested=inp['requested'], **inp.get('options', {}))
+        try:
+            st, out, comp = pipeline.compile_set(inp['texts'], requested=inp['requested'], **inp.get('options', {}))
+        except Exception as e:
+            return {'fails': True, 'what': ['compile() raised %s: %s' % (type(e).__name__, str(e)[:200])]}
         bad = []
+        if inp.get('independent') and str(st.get(inp['independent'])) != 'compiled':
+            bad.append('%s reported %s' % (inp['independent'], st.get(inp['independent'])))
+        for name in inp['requested']:
+            if inp.get('no_raise') and str(st.get(name)) not in ('compiled', 'untouched', 'failed', 'unprocessed', 'missing', 'borrowed'):
+                bad.append('%s has status %r' % (name, st.get(name)))
         for name in out:
             if str(st.get(name)) not in ('compiled', 'borrowed'):
                 bad.append('%s written but reported %s' % (name, st.get(name)))
